@@ -180,13 +180,21 @@ func handleOpen(h *Handler, iq openIQ, e xmlstream.Encoder) error {
 	h.addStream(iq.Open.SID, conn)
 
 	l.eLock.Lock()
-	defer l.eLock.Unlock()
 	key := iq.From.String() + ":" + iq.Open.SID
 	expect, ok := l.expected[key]
 	if ok {
 		delete(l.expected, key)
-		expect.c <- conn
-		return nil
+	}
+	l.eLock.Unlock()
+	if ok {
+		select {
+		case expect.c <- conn:
+			return nil
+		case <-expect.done:
+			// The call that expected this stream has given up in the meantime:
+			// treat it like any other incoming stream instead of blocking the
+			// session on a channel that nobody receives from.
+		}
 	}
 	l.c <- conn
 	return nil
